@@ -10,7 +10,9 @@ import datetime as _dt
 import faulthandler
 import itertools
 import os
+import linecache
 import random
+import re
 import signal
 import sys
 import threading
@@ -232,6 +234,9 @@ def install_clock(clock, poll_div: float) -> dict:
 
 
 # ----------------------------------------------------------------------------- schedule perturbation
+_SYNC_RE = re.compile(r"\.(set|clear|notify|notify_all|release|put|put_nowait|submit|start|set_result|set_exception)\(")
+
+
 class Perturb:
     """sys.monitoring LINE-level yield injection restricted to the SDK's own source files."""
 
@@ -247,6 +252,12 @@ class Perturb:
         self.lock = threading.Lock()
         self.pct = spec.get("pct")  # {"d": n} PCT-like per-thread priorities
         self.prio: dict[int, float] = {}
+        # {"p": .., "sleep": ..}: the thread loses the CPU right AFTER a statement that signals / publishes / hands over
+        # (event.set, queue.put, pool.submit, lock release, dict.clear ...): the classic shape of "set the flag, then store the reason"
+        self.after_sync = spec.get("after_sync")
+        self.after: dict[int, bool] = {}
+        self.sync_lines: dict[tuple, bool] = {}
+        self.sync_hits = 0
 
     def install(self):
         mon = sys.monitoring
@@ -265,6 +276,20 @@ class Perturb:
                 r = self.rng.random()
                 r2 = self.rng.random()
                 r3 = self.rng.random()
+            if self.after_sync:
+                tid = threading.get_ident()
+                was = self.after.pop(tid, False)
+                key = (fn, line)
+                is_sync = self.sync_lines.get(key)
+                if is_sync is None:
+                    is_sync = self.sync_lines[key] = bool(_SYNC_RE.search(linecache.getline(fn, line)))
+                if is_sync:
+                    self.after[tid] = True
+                if was and r3 < self.after_sync.get("p", 0.5):
+                    self.sync_hits += 1
+                    self.hits += 1
+                    _time.sleep(self.after_sync.get("sleep", 0.002) * (0.5 + r2))
+                    return None
             if self.pct:
                 tid = threading.get_ident()
                 pr = self.prio.get(tid)
